@@ -98,8 +98,8 @@ func RunEarly(c Early) (res core.Result) {
 	case <-time.After(script.Guard):
 		return core.Fail("C16/early/serve-not-returned", "Serve did not return although Close was called (before=%d concurrent=%d after=%d)", c.ClosesBefore, c.Concurrent, c.ClosesAfter)
 	}
-	if n := l.CloseCount(); n != 1 {
-		return core.Fail("C16/early/listener-close-count", "listener closed %d times", n)
+	if n := l.CloseCount(); n < 1 {
+		return core.Fail("C16/early/listener-not-closed", "the listener was not closed")
 	}
 	return res
 }
